@@ -97,7 +97,7 @@ CLAIMED = {
         "Trusted: Lean kernel (+ Mathlib's Finset sums); hand-written cube model tied by correspondence at four observation "
         "points; NumPy slicing/sum semantics of the differencing statement are modelled pointwise; float64 exactness of "
         "counts < 2^53; multi-axis dims are covered by the oracle and by C13's stacking model.",
-        "Lean 4 proof (invariant by induction over axes, inclusion-exclusion over an AddCommGroup) + intermediate-state correspondence",
+        "Lean 4 proof (invariant by induction over axes, inclusion-exclusion over an AddCommGroup) + intermediate-state correspondence + the marginal pass regenerated from the source (translator) and proved to be the modelled pass",
         "DESIGN.md §5 C02"),
     "C01": (
         "Lean 4 theorem about the from_array model (counting, caller/library-chosen common incl. absent ones, many-to-one "
@@ -173,7 +173,7 @@ CLAIMED = {
         "dimension and every v in 0..extent (+ one outside) the real cube outputs of all aggregates are compared with the "
         "unshifted cube, also after re-normalising; model count cube of the shifted dims compared.",
         "Trusted: as C03/C06; both cubes use the same explicit extents covering both commons.",
-        "Lean 4 proof (corollary of the refinement theorems) + re-encoding sweep on the real code",
+        "Lean 4 proof (corollary of the refinement theorems) + re-encoding sweep on the real code + the marginal pass regenerated from the source writes each dimension's own common slice",
         "DESIGN.md §5 C05"),
     "C16": (
         "Lean 4 theorem: tasks whose steps change only their own footprint and depend only on it, with pairwise disjoint "
